@@ -35,16 +35,18 @@ theorem C16_buffer_writes : Gen.bufferAttrWrites =
      ("__setitem__", "self", "content"), ("__setitem__", "self", "length"), ("__setitem__", "self", "padding_length"),
      ("_shift_left", "self", "content"), ("_shift_left", "self", "length"), ("_shift_right", "self", "content"), ("_shift_right", "self", "length"),
      ("_update_padding", "self", "padding_length"),
-     ("pad", "loc1", "length"), ("pad", "loc1", "padding"), ("pad", "loc4", "length"), ("pad", "loc4", "padding"), ("pad", "loc4", "padding_length"),
-     ("pad", "self", "content"), ("pad", "self", "length"), ("pad", "self", "padding")] := by
+     ("pad", "self", "content"), ("pad", "self", "length"), ("pad", "self", "padding"),
+     ("pad", "«_.shift(…)»", "length"), ("pad", "«_.shift(…)»", "padding"), ("pad", "«_.shift(…)»", "padding_length"),
+     ("pad", "«self.copy(…)»", "length"), ("pad", "«self.copy(…)»", "padding")] := by
   decide
 
 /-- every call of a possibly mutating Buffer method inside buffer.py is either not in-place, or acts on a copy
-    made in the same method (`pad` on its first local `self_copy`, `shift` on its first local `buffer` — receivers are
-    identified by role: `self`, `arg<i>` = i-th parameter, `loc<k>` = k-th local in order of first binding, so that
-    renaming a variable changes nothing), or is one of the in-place primitives -/
+    made in the same method (`pad` shifts `«self.copy(…)»`; `shift` works on `«self if … else self.copy(…)»`, i.e. on
+    `self` only when `inplace` — receivers are identified by role: `self`, `arg<i>` = i-th parameter, a local by the
+    head of the expression it is first bound to, so that neither renaming a variable nor adding a local changes the
+    table), or is one of the in-place primitives -/
 theorem C16_buffer_calls : Gen.bufferMutatingCalls.all (fun c =>
-    c.2.2.2 == false || (c.1 == "pad" && c.2.2.1 == "loc1") || (c.1 == "shift" && c.2.2.1 == "loc1")
+    c.2.2.2 == false || (c.1 == "pad" && c.2.2.1 == "«self.copy(…)»") || (c.1 == "shift" && c.2.2.1 == "«self if … else self.copy(…)»")
       || c.1 == "_shift_left" || c.1 == "_shift_right") = true := by
   decide
 
@@ -54,56 +56,55 @@ theorem C16_buffer_calls : Gen.bufferMutatingCalls.all (fun c =>
 def allowedMutationSites : List (String × String × String × String × String) := [
   ("microschc", "SCHC.__init__", "self", "attr:context_managers", "constructor initialises its own object"),
   ("microschc", "SCHC.__init__", "self.context_managers", "item", "constructor initialises its own object"),
-  ("microschc", "SCHC.__init__", "self.context_managers[loc1.interface_id]", "call:append", "constructor initialises its own object (`self.context_managers[context.interface_id]` in the source)"),
+  ("microschc", "SCHC.__init__", "self.context_managers[«iter(arg1)».interface_id]", "call:append", "constructor initialises its own object"),
   ("microschc.decompressor.decompressor", "ComputeEntry.__init__", "self", "attr:dependencies", "constructor initialises its own object"),
   ("microschc.decompressor.decompressor", "ComputeEntry.__init__", "self", "attr:field_id", "constructor initialises its own object"),
   ("microschc.decompressor.decompressor", "ComputeEntry.__init__", "self", "attr:field_position", "constructor initialises its own object"),
   ("microschc.decompressor.decompressor", "ComputeEntry.__init__", "self", "attr:function", "constructor initialises its own object"),
-  ("microschc.decompressor.decompressor", "decompress", "loc1", "call:append", "local container created in this call (`compute_entries` in the source)"),
-  ("microschc.decompressor.decompressor", "decompress", "loc1", "call:sort", "local container created in this call (`compute_entries` in the source)"),
-  ("microschc.decompressor.decompressor", "decompress", "loc12", "call:pad(inplace=True)", "fresh slice of the SCHC packet created in this call (`length_buffer` in the source)"),
-  ("microschc.decompressor.decompressor", "decompress", "loc2", "call:append", "local container created in this call (`decompressed_fields` in the source)"),
-  ("microschc.decompressor.decompressor", "decompress", "loc2", "item", "local container created in this call (`decompressed_fields` in the source)"),
+  ("microschc.decompressor.decompressor", "decompress", "«[]»", "call:append", "local container created in this call"),
+  ("microschc.decompressor.decompressor", "decompress", "«[]»", "call:sort", "local container created in this call"),
+  ("microschc.decompressor.decompressor", "decompress", "«[]»", "item", "local container created in this call"),
+  ("microschc.decompressor.decompressor", "decompress", "«arg0[…]»", "call:pad(inplace=True)", "fresh slice of the SCHC packet created in this call"),
   ("microschc.manager.manager", "ContextManager.__init__", "self", "attr:context", "constructor initialises its own object"),
   ("microschc.manager.manager", "ContextManager.__init__", "self", "attr:parser", "constructor initialises its own object"),
   ("microschc.manager.manager", "ContextManager.__init__", "self", "attr:ruler", "constructor initialises its own object"),
-  ("microschc.manager.manager", "ContextManager.compress", "loc1", "attr:direction", "descriptor freshly returned by parser.parse in this call (`packet_descriptor` in the source)"),
+  ("microschc.manager.manager", "ContextManager.compress", "«self.parser.parse(…)»", "attr:direction", "descriptor freshly returned by parser.parse in this call"),
   ("microschc.parser.parser", "HeaderParser.__init__", "self", "attr:name", "constructor initialises its own object"),
   ("microschc.parser.parser", "HeaderParser.__init__", "self", "attr:predict_next", "constructor initialises its own object"),
   ("microschc.parser.parser", "PacketParser.__init__", "self", "attr:name", "constructor initialises its own object"),
   ("microschc.parser.parser", "PacketParser.__init__", "self", "attr:parsers", "constructor initialises its own object"),
-  ("microschc.parser.parser", "PacketParser.parse", "loc2", "call:append", "local container created in this call (`header_descriptors` in the source)"),
-  ("microschc.parser.parser", "PacketParser.unparse", "loc1", "call:extend", "local container created in this call (`unparsed_fields` in the source)"),
+  ("microschc.parser.parser", "PacketParser.parse", "«[]»", "call:append", "local container created in this call"),
+  ("microschc.parser.parser", "PacketParser.unparse", "«[]»", "call:extend", "local container created in this call"),
   ("microschc.protocol.coap", "CoAPParser.__init__", "self", "attr:interpret_options", "constructor initialises its own object"),
   ("microschc.protocol.coap", "CoAPParser.__init__", "self", "attr:unknown_option_pattern", "constructor initialises its own object"),
-  ("microschc.protocol.coap", "CoAPParser.parse", "loc8", "call:append", "local container created in this call (`header_fields` in the source)"),
-  ("microschc.protocol.coap", "CoAPParser.unparse", "loc1", "call:append", "local container created in this call (`unparsed_fields` in the source)"),
-  ("microschc.protocol.coap", "_parse_options", "loc1", "call:append", "local container created in this call (`fields` in the source)"),
-  ("microschc.protocol.coap", "_parse_options", "loc3", "item", "local container created in this call (`option_field_positions` in the source)"),
-  ("microschc.protocol.ipv4", "IPv4Parser.parse", "loc13", "attr:length", "HeaderDescriptor freshly built in this call (`header_descriptor` in the source)"),
-  ("microschc.protocol.ipv4", "IPv4Parser.parse", "loc13.fields", "call:extend", "HeaderDescriptor freshly built in this call (`header_descriptor.fields` in the source)"),
-  ("microschc.protocol.ipv6", "IPv6Parser.parse", "loc9", "attr:length", "HeaderDescriptor freshly built in this call (`header_descriptor` in the source)"),
-  ("microschc.protocol.ipv6", "IPv6Parser.parse", "loc9.fields", "call:extend", "HeaderDescriptor freshly built in this call (`header_descriptor.fields` in the source)"),
+  ("microschc.protocol.coap", "CoAPParser.parse", "«[…]»", "call:append", "local container created in this call"),
+  ("microschc.protocol.coap", "CoAPParser.unparse", "«[]»", "call:append", "local container created in this call"),
+  ("microschc.protocol.coap", "_parse_options", "«DictComp»", "item", "local container created in this call"),
+  ("microschc.protocol.coap", "_parse_options", "«[]»", "call:append", "local container created in this call"),
+  ("microschc.protocol.ipv4", "IPv4Parser.parse", "«HeaderDescriptor(…)»", "attr:length", "HeaderDescriptor freshly built in this call"),
+  ("microschc.protocol.ipv4", "IPv4Parser.parse", "«HeaderDescriptor(…)».fields", "call:extend", "HeaderDescriptor freshly built in this call"),
+  ("microschc.protocol.ipv6", "IPv6Parser.parse", "«HeaderDescriptor(…)»", "attr:length", "HeaderDescriptor freshly built in this call"),
+  ("microschc.protocol.ipv6", "IPv6Parser.parse", "«HeaderDescriptor(…)».fields", "call:extend", "HeaderDescriptor freshly built in this call"),
   ("microschc.protocol.registry", "REGISTER_PARSER", "PARSERS", "item", "import-time registration in the module table"),
-  ("microschc.protocol.sctp", "SCTPParser._parse_chunk", "loc1", "call:append", "local container created in this call (`fields` in the source)"),
-  ("microschc.protocol.sctp", "SCTPParser._parse_chunk", "loc1", "call:extend", "local container created in this call (`fields` in the source)"),
-  ("microschc.protocol.sctp", "SCTPParser._parse_chunk_abort", "loc1", "call:extend", "local container created in this call (`fields` in the source)"),
-  ("microschc.protocol.sctp", "SCTPParser._parse_chunk_cookie_echo", "loc1", "call:append", "local container created in this call (`fields` in the source)"),
-  ("microschc.protocol.sctp", "SCTPParser._parse_chunk_data", "loc1", "call:append", "local container created in this call (`fields` in the source)"),
-  ("microschc.protocol.sctp", "SCTPParser._parse_chunk_data", "loc1", "call:extend", "local container created in this call (`fields` in the source)"),
-  ("microschc.protocol.sctp", "SCTPParser._parse_chunk_error", "loc1", "call:extend", "local container created in this call (`fields` in the source)"),
-  ("microschc.protocol.sctp", "SCTPParser._parse_chunk_heartbeat", "loc1", "call:extend", "local container created in this call (`fields` in the source)"),
-  ("microschc.protocol.sctp", "SCTPParser._parse_chunk_heartbeat_ack", "loc1", "call:extend", "local container created in this call (`fields` in the source)"),
-  ("microschc.protocol.sctp", "SCTPParser._parse_chunk_init", "loc1", "call:extend", "local container created in this call (`fields` in the source)"),
-  ("microschc.protocol.sctp", "SCTPParser._parse_chunk_init_ack", "loc1", "call:extend", "local container created in this call (`fields` in the source)"),
-  ("microschc.protocol.sctp", "SCTPParser._parse_chunk_selective_ack", "loc1", "call:extend", "local container created in this call (`fields` in the source)"),
-  ("microschc.protocol.sctp", "SCTPParser._parse_chunk_shutdown", "loc1", "call:append", "local container created in this call (`fields` in the source)"),
-  ("microschc.protocol.sctp", "SCTPParser._parse_parameter", "loc1", "call:append", "local container created in this call (`fields` in the source)"),
-  ("microschc.protocol.sctp", "SCTPParser._parse_parameter", "loc1", "call:extend", "local container created in this call (`fields` in the source)"),
-  ("microschc.protocol.sctp", "SCTPParser.parse", "loc5", "call:extend", "local container created in this call (`header_fields` in the source)"),
+  ("microschc.protocol.sctp", "SCTPParser._parse_chunk", "«[]»", "call:append", "local container created in this call"),
+  ("microschc.protocol.sctp", "SCTPParser._parse_chunk", "«[]»", "call:extend", "local container created in this call"),
+  ("microschc.protocol.sctp", "SCTPParser._parse_chunk_abort", "«[]»", "call:extend", "local container created in this call"),
+  ("microschc.protocol.sctp", "SCTPParser._parse_chunk_cookie_echo", "«[]»", "call:append", "local container created in this call"),
+  ("microschc.protocol.sctp", "SCTPParser._parse_chunk_data", "«[]»", "call:append", "local container created in this call"),
+  ("microschc.protocol.sctp", "SCTPParser._parse_chunk_data", "«[]»", "call:extend", "local container created in this call"),
+  ("microschc.protocol.sctp", "SCTPParser._parse_chunk_error", "«[]»", "call:extend", "local container created in this call"),
+  ("microschc.protocol.sctp", "SCTPParser._parse_chunk_heartbeat", "«[]»", "call:extend", "local container created in this call"),
+  ("microschc.protocol.sctp", "SCTPParser._parse_chunk_heartbeat_ack", "«[]»", "call:extend", "local container created in this call"),
+  ("microschc.protocol.sctp", "SCTPParser._parse_chunk_init", "«[]»", "call:extend", "local container created in this call"),
+  ("microschc.protocol.sctp", "SCTPParser._parse_chunk_init_ack", "«[]»", "call:extend", "local container created in this call"),
+  ("microschc.protocol.sctp", "SCTPParser._parse_chunk_selective_ack", "«[]»", "call:extend", "local container created in this call"),
+  ("microschc.protocol.sctp", "SCTPParser._parse_chunk_shutdown", "«[]»", "call:append", "local container created in this call"),
+  ("microschc.protocol.sctp", "SCTPParser._parse_parameter", "«[]»", "call:append", "local container created in this call"),
+  ("microschc.protocol.sctp", "SCTPParser._parse_parameter", "«[]»", "call:extend", "local container created in this call"),
+  ("microschc.protocol.sctp", "SCTPParser.parse", "«[…]»", "call:extend", "local container created in this call"),
   ("microschc.protocol.udp", "UDPParser.__init__", "self", "attr:predict_next", "constructor initialises its own object"),
-  ("microschc.protocol.udp", "UDPParser.parse", "loc5", "attr:length", "HeaderDescriptor freshly built in this call (`header_descriptor` in the source)"),
-  ("microschc.protocol.udp", "UDPParser.parse", "loc5.fields", "call:extend", "HeaderDescriptor freshly built in this call (`header_descriptor.fields` in the source)"),
+  ("microschc.protocol.udp", "UDPParser.parse", "«HeaderDescriptor(…)»", "attr:length", "HeaderDescriptor freshly built in this call"),
+  ("microschc.protocol.udp", "UDPParser.parse", "«HeaderDescriptor(…)».fields", "call:extend", "HeaderDescriptor freshly built in this call"),
   ("microschc.ruler.ruler", "Ruler.__init__", "self", "attr:rules", "constructor initialises its own object")
 ]
 
